@@ -14,7 +14,7 @@
 (* Rule kinds (DESIGN.md 3): S = stated by the published definition / the property,             *)
 (* L = the library's documented parameter choice inside the freedom the definition leaves       *)
 (* ("a = b = the golden ratio; an arbitrary value", "seed: an arbitrary seed value").           *)
-EXTENDS Integers, Sequences, TLC, Json, Bitwise
+EXTENDS Integers, Sequences, SequencesExt, TLC, Json, Bitwise
 
 CONSTANTS Keys,            \* the byte sequences evaluated in the bounded model
           Seeds,           \* the seeds (pairs of limbs)
@@ -88,12 +88,12 @@ WordBE(k, p) == <<k[p + 1] * 256 + k[p + 2], k[p + 3] * 256 + k[p + 4]>>
 \* "le" / "be" = three native word reads (hash3() on an aligned key) on a little- / big-endian host
 BlockWord(k, p, how) == IF how = "be" THEN WordBE(k, p) ELSE WordLE(k, p)
 
-RECURSIVE L2Blocks(_, _, _, _)
-L2Blocks(k, p, how, st) ==                                  \* while (len >= 12) { ... mix(a,b,c); k += 12; len -= 12; }
-    IF Len(k) - p >= 12
-    THEN L2Blocks(k, p + 12, how,
-                  Mix(Add(st[1], BlockWord(k, p, how)), Add(st[2], BlockWord(k, p + 4, how)), Add(st[3], BlockWord(k, p + 8, how))))
-    ELSE st
+\* while (len >= 12) { a += ...; b += ...; c += ...; mix(a,b,c); k += 12; len -= 12; }
+\* (loops are folds over the block offsets / the bytes: FoldLeft evaluates strictly, left to right)
+BlockOffsets(n, size) == [j \in 1 .. (n \div size) |-> size * (j - 1)]
+L2Blocks(k, how, st0) ==
+    FoldLeft(LAMBDA st, p : Mix(Add(st[1], BlockWord(k, p, how)), Add(st[2], BlockWord(k, p + 4, how)), Add(st[3], BlockWord(k, p + 8, how))),
+             st0, BlockOffsets(Len(k), 12))
 
 \* S: the tail switch of hash()/hash3(): "all the case statements fall through", so case n runs iff rem >= n.
 \* "the first byte of c is reserved for the length"
@@ -116,7 +116,7 @@ L2Tail(k, p, st) ==
 \* S: hash(k, length, initval) of lookup2.c with the arbitrary internal-state value g, block reads `how`,
 \* and the length term lt (hash(): the length in bytes)
 Lookup2Gen(k, init, g, how, lt) ==
-    LET s1 == L2Blocks(k, 0, how, <<g, g, init>>)
+    LET s1 == L2Blocks(k, how, <<g, g, init>>)
         p  == (Len(k) \div 12) * 12
         s2 == <<s1[1], s1[2], Add(s1[3], lt)>>                \* c += length
         s3 == L2Tail(k, p, s2)
@@ -126,13 +126,10 @@ Lookup2Hash3(k, init, g, aligned, bigendian) ==                                 
     Lookup2Gen(k, init, g, IF aligned THEN (IF bigendian THEN "be" ELSE "le") ELSE "bytes", U(Len(k)))
 
 \* S: hash2(k, length, initval) of lookup2.c: k is an array of ub4, length counts ub4s
-RECURSIVE H2Blocks(_, _, _)
-H2Blocks(w, p, st) ==
-    IF Len(w) - p >= 3
-    THEN H2Blocks(w, p + 3, Mix(Add(st[1], w[p + 1]), Add(st[2], w[p + 2]), Add(st[3], w[p + 3])))
-    ELSE st
+H2Blocks(w, st0) ==                                         \* while (len >= 3) { a += k[0]; b += k[1]; c += k[2]; mix(a,b,c); k += 3; len -= 3; }
+    FoldLeft(LAMBDA st, p : Mix(Add(st[1], w[p + 1]), Add(st[2], w[p + 2]), Add(st[3], w[p + 3])), st0, BlockOffsets(Len(w), 3))
 Lookup2Hash2(w, init, g) ==
-    LET s1  == H2Blocks(w, 0, <<g, g, init>>)
+    LET s1  == H2Blocks(w, <<g, g, init>>)
         p   == (Len(w) \div 3) * 3
         rem == Len(w) - p
         c   == Add(s1[3], U(Len(w)))                          \* c += length   ("c is reserved for the length")
@@ -148,21 +145,17 @@ WordsOf(k) == [i \in 1 .. (Len(k) \div 4) |-> WordLE(k, 4 * (i - 1))]
 \* S: for (hash=<init>, i=0; i<len; ++i) hash = (hash<<4)^(hash>>28)^key[i];
 \*    return (hash ^ (hash>>10) ^ (hash>>20))   [& mask left to the caller, as in the library]
 \* (the article starts from hash=len; the start value is a parameter here, see LibStart)
-RECURSIVE RotLoop(_, _, _)
-RotLoop(k, i, h) == IF i > Len(k) THEN h ELSE RotLoop(k, i + 1, BXor(BXor(Shl(h, 4), Shr(h, 28)), Byte(k[i])))
-Rotating(k, init) == LET h == RotLoop(k, 1, init) IN BXor(BXor(h, Shr(h, 10)), Shr(h, 20))
+RotLoop(k, init) == FoldLeft(LAMBDA h, byte : BXor(BXor(Shl(h, 4), Shr(h, 28)), Byte(byte)), init, k)
+Rotating(k, init) == LET h == RotLoop(k, init) IN BXor(BXor(h, Shr(h, 10)), Shr(h, 20))
 
 \* S: for (hash=<init>, i=0; i<len; ++i) { hash += key[i]; hash += (hash << 10); hash ^= (hash >> 6); }
 \*    hash += (hash << 3); hash ^= (hash >> 11); hash += (hash << 15);     (the article starts from hash=0)
-RECURSIVE OaatLoop(_, _, _)
-OaatLoop(k, i, h) ==
-    IF i > Len(k) THEN h
-    ELSE LET h1 == Add(h, Byte(k[i]))
-             h2 == Add(h1, Shl(h1, 10))
-             h3 == BXor(h2, Shr(h2, 6))
-         IN OaatLoop(k, i + 1, h3)
+OaatStep(h, byte) == LET h1 == Add(h, Byte(byte))
+                         h2 == Add(h1, Shl(h1, 10))
+                     IN BXor(h2, Shr(h2, 6))
+OaatLoop(k, init) == FoldLeft(OaatStep, init, k)
 OneAtATime(k, init) ==
-    LET h0 == OaatLoop(k, 1, init)
+    LET h0 == OaatLoop(k, init)
         h1 == Add(h0, Shl(h0, 3))
         h2 == BXor(h1, Shr(h1, 11))
     IN Add(h2, Shl(h2, 15))
@@ -171,12 +164,8 @@ OneAtATime(k, init) ==
 (* FNV *)
 FNV_PRIME == <<256, 403>>          \* 16777619 = 0x01000193 = 2^24 + 2^8 + 0x93
 FNV_BASIS == <<33052, 40389>>      \* 2166136261 = 0x811c9dc5
-RECURSIVE Fnv1aLoop(_, _, _)
-Fnv1aLoop(k, i, h) == IF i > Len(k) THEN h ELSE Fnv1aLoop(k, i + 1, Mul(BXor(h, Byte(k[i])), FNV_PRIME))   \* xor, then multiply
-Fnv1a(k, hval) == Fnv1aLoop(k, 1, hval)
-RECURSIVE Fnv1Loop(_, _, _)
-Fnv1Loop(k, i, h) == IF i > Len(k) THEN h ELSE Fnv1Loop(k, i + 1, BXor(Mul(h, FNV_PRIME), Byte(k[i])))     \* multiply, then xor
-Fnv1(k, hval) == Fnv1Loop(k, 1, hval)
+Fnv1a(k, hval) == FoldLeft(LAMBDA h, byte : Mul(BXor(h, Byte(byte)), FNV_PRIME), hval, k)     \* xor, then multiply
+Fnv1(k, hval)  == FoldLeft(LAMBDA h, byte : BXor(Mul(h, FNV_PRIME), Byte(byte)), hval, k)     \* multiply, then xor
 
 ---------------------------------------------------------------------------------
 (* the library's parameter choices (L) *)
@@ -235,7 +224,7 @@ ASSUME EndianMatters ==
 ---------------------------------------------------------------------------------
 (* one action per library call: evaluate the reference on the current case and observe the value *)
 Eval(op, args, ret) == /\ fresh /\ fresh' = FALSE /\ UNCHANGED <<key, seed>>
-                       /\ Obs(op, args, ret, [fresh |-> FALSE])
+                       /\ Obs(op, args, ret, [done |-> TRUE])
 Args == [key |-> key, seed |-> seed]
 
 OpJenkins     == Eval("jenkins", Args, RefJenkins(key, seed))
